@@ -5,6 +5,13 @@ process-global loops) connect over loopback to a peer thread that records every 
 push self-describing messages through ``conn.push`` with yield injection (sys.monitoring LINE
 events restricted to the push path); the peer's byte stream is parsed back by
 native/reactor_push.py and judged here.
+
+Four runs in five are "wide": a few 128 KiB - 1 MiB messages (32/64/128/256 chunks exactly and one
+byte more, 300 KiB, 1 MiB + 5) are mixed into the plans, and two more pushers call ``conn.push`` on
+the reactor's own thread concurrently with the thread pushers: one message per loop iteration in
+seeded bursts and around every large push (call_soon_threadsafe / callFromThread entry), and one
+message per byte the peer echoes, pushed from the callback the reactor's real read path invokes
+(the way response callbacks send follow-up requests).  Same oracle for every pusher.
 """
 import json
 import os
@@ -17,9 +24,11 @@ LEVEL = "exploration"
 ENGINE = "stress"
 TECHNIQUE = "runtime monitor under real threads: byte-stream conservation/ordering oracle at the peer, yield injection via sys.monitoring"
 LEVEL_TEXT = ("For each usable event-loop reactor (asyncio, twisted) tens (quick) to ~1000 (thorough) runs of 2-8 threads x 30-400 messages of "
-              "sizes around the 4096-byte chunking threshold are pushed concurrently, with seeded sleep(0) injection at statement starts of "
-              "push/_push_msg/handle_write; the bytes the peer received must parse into whole messages, each thread's sequence numbers "
-              "ascending without gaps, total bytes conserved. Held on the interleavings that occurred.")
+              "sizes around the 4096-byte chunking threshold, plus (4 runs in 5) a few 128 KiB - 1 MiB messages on and next to chunk-count "
+              "boundaries and two pushers that call conn.push on the reactor's own thread (every loop iteration in seeded bursts and around each "
+              "large push; from the read-path callback for bytes the peer echoes), are pushed concurrently, with seeded sleep(0) injection at "
+              "statement starts of push/_push_msg/handle_write; the bytes the peer received must parse into whole messages, each pusher's "
+              "sequence numbers ascending without gaps, total bytes conserved. Held on the interleavings that occurred.")
 LEVEL_NOTE = ("Trusted base: the loopback peer and the stream parser. eventlet/gevent/libev/asyncore reactors cannot run on this interpreter and "
               "are outside 'reactors usable on the supported Python versions' here. A byte count that stops growing for 10 s after all pushes "
               "returned is judged as lost messages (logical completion), an overall 120 s watchdog as inconclusive.")
@@ -31,8 +40,8 @@ QUICK_TIMEOUT = 900
 def run(ctx):
     from vlib.run import VERIF, Inconclusive
     rng = ctx.rng
-    ctx.rule = ("a case is one run (reactor, threads, messages per thread, injection on/off, seed); distinct by parameters+seed; all runs with "
-                ">= 2 threads are non-trivial")
+    ctx.rule = ("a case is one run (reactor, threads, messages per thread, injection on/off, slow peer, wide workload on/off, seed); distinct "
+                "by parameters+seed; all runs with >= 2 threads are non-trivial")
     n = ctx.scale(10, 1500)
     budget = 45 if ctx.quick else 420
     tmpd = tempfile.mkdtemp(prefix="verif_c11_")
@@ -50,11 +59,12 @@ def run(ctx):
                 nmsgs = min(nmsgs, 40)
                 inject = 0
             seed = rng.getrandbits(30)
+            wide = 0 if i % 5 == 3 else 1           # large messages + pushes from the reactor's own thread
             out = os.path.join(tmpd, "r%d.json" % i)
             env = dict(os.environ, PYTHONPATH='')
             try:
                 r = subprocess.run([sys.executable, os.path.join(VERIF, "native", "reactor_push.py"), ctx.repo, which, str(seed), str(nthreads),
-                                    str(nmsgs), str(inject), out, str(slow)], capture_output=True, text=True, timeout=300, env=env, cwd=tmpd)
+                                    str(nmsgs), str(inject), out, str(slow), str(wide)], capture_output=True, text=True, timeout=300, env=env, cwd=tmpd)
             except subprocess.TimeoutExpired:
                 ctx.count("runs_watchdog_fired")
                 continue
@@ -64,15 +74,22 @@ def run(ctx):
             os.remove(out)
             if res.get('harness_error'):
                 raise Inconclusive("reactor run harness error: %s" % res['harness_error'])
-            ctx.case(repr((which, nthreads, nmsgs, inject, slow, seed)), nontrivial=nthreads >= 2)
+            if res.get('wide') != bool(wide) or 'large_delivered' not in res:
+                raise Inconclusive("native/reactor_push.py did not run the workload asked for (wide=%d): %r" % (wide, sorted(res)))
+            ctx.case(repr((which, nthreads, nmsgs, inject, slow, wide, seed)), nontrivial=nthreads >= 2)
             ctx.count("runs_" + which)
             if slow:
                 ctx.count("runs_with_back_pressure_slow_peer_small_buffers")
             ctx.count("messages_checked", res['messages_parsed'])
             ctx.count("bytes_received", res['received_bytes'])
             ctx.count("yield_injection_line_events", res['line_events'])
-            wit = {k: res[k] for k in ('reactor', 'seed', 'threads', 'msgs', 'inject', 'expected_bytes', 'received_bytes', 'messages_parsed',
-                                       'messages_expected', 'problems', 'is_defunct', 'last_error', 'push_errors')}
+            wit = {k: res[k] for k in ('reactor', 'seed', 'threads', 'msgs', 'inject', 'slow_peer', 'wide', 'expected_bytes', 'received_bytes',
+                                       'messages_parsed', 'messages_expected', 'problems', 'is_defunct', 'last_error', 'push_errors',
+                                       'large_planned', 'large_delivered', 'loop_thread_pushes', 'read_callback_pushes')}
+            if wide:
+                ctx.count("runs_wide_" + which)
+            if res.get('loop_unresponsive'):
+                ctx.count("runs_reactor_thread_did_not_answer_within_20s")
             if res['push_errors']:
                 ctx.violation("push-raised", "%s: conn.push raised %s" % (which, res['push_errors'][0]), wit)
                 continue
@@ -87,6 +104,12 @@ def run(ctx):
                     which, res['messages_parsed'], res['messages_expected'], res['received_bytes'], res['expected_bytes']), wit)
                 continue
             ctx.count("runs_stream_whole_and_ordered")
+            # floors: only what the peer received whole, in a run whose whole stream was in order
+            ctx.count("large_messages_128KiB_to_1MiB_delivered_" + which, res['large_delivered'])
+            ctx.count("messages_300KiB_or_more_delivered_" + which, res['huge_delivered'])
+            ctx.count("large_pushes_made_while_reactor_thread_was_pushing_" + which, res['large_pushed_while_loop_thread_pushing'])
+            ctx.count("reactor_thread_pushes_delivered_" + which, res['loop_thread_pushes_delivered'])
+            ctx.count("reactor_thread_pushes_from_read_callback_delivered_" + which, res['read_callback_pushes_delivered'])
             if len(ctx.samples) < 4:
                 ctx.sample(wit)
     finally:
@@ -95,3 +118,11 @@ def run(ctx):
     ctx.floor_distinct = 10 if ctx.quick else 300
     ctx.floor_counters = {"runs_asyncio": 4, "runs_twisted": 4, "messages_checked": 1000, "yield_injection_line_events": 1000,
                           "runs_with_back_pressure_slow_peer_small_buffers": 3}
+    for which in ('asyncio', 'twisted'):
+        ctx.floor_counters.update({
+            "runs_wide_" + which: 3,
+            "large_messages_128KiB_to_1MiB_delivered_" + which: 12,
+            "messages_300KiB_or_more_delivered_" + which: 6,
+            "large_pushes_made_while_reactor_thread_was_pushing_" + which: 6,
+            "reactor_thread_pushes_delivered_" + which: 1000,
+            "reactor_thread_pushes_from_read_callback_delivered_" + which: 40})
